@@ -84,6 +84,33 @@ def parse_header(path):
     return protos, enums, macros
 
 
+def constant_pool(inc, out):
+    import glob, subprocess, concurrent.futures as cf
+    hs = sorted(glob.glob(os.path.join(inc, '**', '*.h'), recursive=True))
+    vals = {0, 1, 2, 3, 4, 8, 16, 24, 32, 48, 64}
+
+    def one(h):
+        protos, enums, macros = parse_header(h)
+        names = list(enums) + [k for k, v in macros.items() if re.match(r'^\(?\s*(0[xX][0-9a-fA-F]+|\d+)[uUlL]*\s*\)?$', v)]
+        if not names:
+            return []
+        src = os.path.join(out, 'pool_%s.c' % re.sub(r'\W', '_', os.path.relpath(h, inc)))
+        with open(src, 'w') as f:
+            f.write('#include <stdio.h>\n#include "%s"\nint main(void){\n' % os.path.relpath(h, inc))
+            for n in names:
+                f.write('printf("%%llu\\n", (unsigned long long)(%s));\n' % n)
+            f.write('return 0;}\n')
+        r = subprocess.run(['gcc', '-std=gnu99', '-w', '-I' + inc, src, '-o', src[:-2]], stdout=subprocess.PIPE, stderr=subprocess.PIPE)
+        if r.returncode != 0:
+            return []
+        o = subprocess.run([src[:-2]], stdout=subprocess.PIPE, text=True).stdout
+        return [int(x) for x in o.split() if x.isdigit()]
+    with cf.ThreadPoolExecutor(16) as ex:
+        for lst in ex.map(one, hs):
+            vals.update(v for v in lst if v <= 0xFFFF)
+    return sorted(vals)
+
+
 def pick(names, avail):
     if isinstance(names, str):
         names = [names]
@@ -127,6 +154,12 @@ def main():
         w.append('/* generated by gen.py - do not edit */')
         w.append('#include <stdint.h>\n#include <stddef.h>')
         w.append('#include "%s"' % fm['header'])
+        # every argument expression of a library call has a side effect (a counter): an entry point that became a macro
+        # and expands an argument twice is seen as a count that differs from the number of arguments
+        w.append('#ifndef W_TLS\n#define W_TLS\n#endif')
+        w.append('extern W_TLS unsigned long w_ev; extern unsigned long w_ev_bad; extern const char* w_ev_name;')
+        w.append('#define W_A(x) (w_ev++, (x))')
+        w.append('#define W_CHK(n, name) do { if (w_ev != (n)) { w_ev_bad++; w_ev_name = (name); } w_ev = 0; } while (0)')
         N = fm['name']
         g_cases, s_cases, e_cases, g2_cases = [], [], [], []
         fl_meta = []
@@ -137,18 +170,18 @@ def main():
             gname = low.get((P + '_Get' + f['acc']).lower())
             sname = low.get((P + '_Set' + f['acc']).lower())
             hasg = hass = 0
-            g_cases.append('    case %d: if (path == 0) return %s((%s*)pdu, %s);' % (k, getf, T, f['enum']))
-            s_cases.append('    case %d: if (path == 0) { %s((%s*)pdu, %s, v); return; }' % (k, setf, T, f['enum']))
+            g_cases.append('    case %d: if (path == 0) { uint64_t r; w_ev = 0; r = %s(W_A((%s*)pdu), W_A(%s)); W_CHK(2, "%s"); return r; }' % (k, getf, T, f['enum'], getf))
+            s_cases.append('    case %d: if (path == 0) { w_ev = 0; %s(W_A((%s*)pdu), W_A(%s), W_A(v)); W_CHK(3, "%s"); return; }' % (k, setf, T, f['enum'], setf))
             gbits = sbits = 0
             if gname:
                 ret = protos[gname][0]
-                g_cases.append('        return (uint64_t)%s((%s*)pdu);' % (gname, T))
+                g_cases.append('        { uint64_t r; w_ev = 0; r = (uint64_t)%s(W_A((%s*)pdu)); W_CHK(1, "%s"); return r; }' % (gname, T, gname))
                 used_protos.add(gname); hasg = 1
             else:
                 g_cases.append('        return 0;')
             if sname:
                 ptype = protos[sname][1][1][0]
-                s_cases.append('        %s((%s*)pdu, (%s)v); return;' % (sname, T, ptype))
+                s_cases.append('        { w_ev = 0; %s(W_A((%s*)pdu), W_A((%s)v)); W_CHK(2, "%s"); return; }' % (sname, T, ptype, sname))
                 used_protos.add(sname); hass = 1
             else:
                 s_cases.append('        return;')
@@ -180,7 +213,7 @@ def main():
                 problems.append('%s: initialiser %s not declared' % (N, fn))
             else:
                 used_protos.add(fn); has_init = 1
-                w.append('void w%s_init(uint8_t* pdu) { %s((%s*)pdu); }' % (N, fn, T))
+                w.append('void w%s_init(uint8_t* pdu) { w_ev = 0; %s(W_A((%s*)pdu)); W_CHK(1, "%s"); }' % (N, fn, T, fn))
         if not has_init:
             w.append('void w%s_init(uint8_t* pdu) { (void)pdu; }' % N)
         # legacy triple
@@ -197,7 +230,9 @@ def main():
             sp = protos[lg['set']][1]
             w.append('''uint64_t w%(N)s_lget(uint8_t* pdu, uint64_t id, uint64_t nullval, uint8_t* out8) {
   %(vt)s val = (%(vt)s)0xA5A5A5A5A5A5A5A5ull;
-  int rc = %(fn)s((%(pt)s)pdu, (%(et)s)(int)(int64_t)id, nullval ? (%(vt)s*)0 : &val);
+  w_ev = 0;
+  int rc = %(fn)s(W_A((%(pt)s)pdu), W_A((%(et)s)(int)(int64_t)id), W_A(nullval ? (%(vt)s*)0 : &val));
+  W_CHK(3, "%(fn)s");
   uint64_t v64 = (uint64_t)val;
   for (int i = 0; i < 8; i++) out8[i] = (uint8_t)(v64 >> (8 * (7 - i)));
   return (uint64_t)(int64_t)rc;
@@ -207,16 +242,19 @@ uint64_t w%(N)s_lget_at(uint8_t* pdu, uint64_t id, uint8_t* resultloc) {
   return (uint64_t)(int64_t)%(fn)s((%(pt)s)pdu, (%(et)s)(int)(int64_t)id, (%(vt)s*)(void*)resultloc);
 }''' % {'N': N, 'vt': vt, 'fn': lg['get'], 'pt': gp[0][0], 'et': gp[1][0]})
             w.append('''uint64_t w%(N)s_lset(uint8_t* pdu, uint64_t id, uint64_t v) {
-  return (uint64_t)(int64_t)%(fn)s((%(pt)s)pdu, (%(et)s)(int)(int64_t)id, (%(vt)s)v);
+  w_ev = 0;
+  int rc = %(fn)s(W_A((%(pt)s)pdu), W_A((%(et)s)(int)(int64_t)id), W_A((%(vt)s)v));
+  W_CHK(3, "%(fn)s");
+  return (uint64_t)(int64_t)rc;
 }''' % {'N': N, 'vt': sp[2][0], 'fn': lg['set'], 'pt': sp[0][0], 'et': sp[1][0]})
             if lg['init']:
                 has_linit = 1
                 used_protos.add(lg['init'])
                 ip = protos[lg['init']][1]
                 if len(ip) == 2:
-                    w.append('uint64_t w%s_linit(uint8_t* pdu, uint64_t arg) { return (uint64_t)(int64_t)%s((%s)pdu, (%s)arg); }' % (N, lg['init'], ip[0][0], ip[1][0]))
+                    w.append('uint64_t w%s_linit(uint8_t* pdu, uint64_t arg) { w_ev = 0; int rc = %s(W_A((%s)pdu), W_A((%s)arg)); W_CHK(2, "%s"); return (uint64_t)(int64_t)rc; }' % (N, lg['init'], ip[0][0], ip[1][0], lg['init']))
                 else:
-                    w.append('uint64_t w%s_linit(uint8_t* pdu, uint64_t arg) { (void)arg; return (uint64_t)(int64_t)%s((%s)pdu); }' % (N, lg['init'], ip[0][0]))
+                    w.append('uint64_t w%s_linit(uint8_t* pdu, uint64_t arg) { (void)arg; w_ev = 0; int rc = %s(W_A((%s)pdu)); W_CHK(1, "%s"); return (uint64_t)(int64_t)rc; }' % (N, lg['init'], ip[0][0], lg['init']))
         if not has_l:
             w.append('uint64_t w%s_lget(uint8_t* pdu, uint64_t id, uint64_t nullval, uint8_t* out8) { (void)pdu; (void)id; (void)nullval; (void)out8; return 0; }' % N)
             w.append('uint64_t w%s_lget_at(uint8_t* pdu, uint64_t id, uint8_t* resultloc) { (void)pdu; (void)id; (void)resultloc; return 0; }' % N)
@@ -238,6 +276,7 @@ uint64_t w%(N)s_lget_at(uint8_t* pdu, uint64_t id, uint8_t* resultloc) {
     case 2: return (uint64_t)(%(L)s);
     case 3: return (uint64_t)(%(M)s);
     case 4: %(P)s
+    case 5: return (uint64_t)__alignof__(%(T)s);
   }
   return ~0ull;
 }''' % {'N': N, 'T': T, 'L': lenm, 'M': maxe,
@@ -312,8 +351,8 @@ uint64_t w%(N)s_lget_at(uint8_t* pdu, uint64_t id, uint8_t* resultloc) {
         for kind, i, x in items:
             if kind == 'struct':
                 same = ('sizeof(%s)' % x['same_as']) if x['same_as'] else '~0ull'
-                t.append('    case %d: return what == 0 ? (uint64_t)sizeof(%s) : what == 1 ? (uint64_t)offsetof(%s, %s) : (uint64_t)%s;'
-                         % (i, x['struct'], x['struct'], x['payload_member'], same))
+                t.append('    case %d: return what == 0 ? (uint64_t)sizeof(%s) : what == 1 ? (uint64_t)offsetof(%s, %s) : what == 3 ? (uint64_t)__alignof__(%s) : (uint64_t)%s;'
+                         % (i, x['struct'], x['struct'], x['payload_member'], x['struct'], same))
                 scase.append('    case %d: return wlstruct_%d(k, what);' % (i, hi))
         t.append('  }\n  return ~0ull;\n}')
         with open(os.path.join(out, 'wrap_legacy_%d.c' % hi), 'w') as f:
@@ -335,7 +374,8 @@ uint64_t w%(N)s_lget_at(uint8_t* pdu, uint64_t id, uint8_t* resultloc) {
          'extern const RowFmt g_fmts[]; extern const int g_nfmts;',
          'typedef struct { const char* macro; int fmt, fld; } RowAlias; extern const RowAlias g_aliases[]; extern const int g_naliases;',
          'typedef struct { const char* name; int size, payload_off, has_same; } RowLStruct; extern const RowLStruct g_lstructs[]; extern const int g_nlstructs;',
-         'typedef struct { const char* name; int base, view, bfld, vfld; } RowShare; extern const RowShare g_shares[]; extern const int g_nshares;']
+         'typedef struct { const char* name; int base, view, bfld, vfld; } RowShare; extern const RowShare g_shares[]; extern const int g_nshares;',
+         'extern const uint64_t g_pool[]; extern const int g_npool;']
     with open(os.path.join(out, 'rows_gen.h'), 'w') as f:
         f.write('\n'.join(h) + '\n')
     c = ['/* generated by gen.py - do not edit */', '#include "rows_gen.h"']
@@ -374,6 +414,10 @@ uint64_t w%(N)s_lget_at(uint8_t* pdu, uint64_t id, uint8_t* resultloc) {
                 c.append('  {"%s", %d, %d, %d, %d},' % (sv['name'], fidx[sv['base']], fidx[v], fldidx(sv['base'], bf), fldidx(v, vf)))
                 ns += 1
     c.append('};\nconst int g_nshares = %d;' % ns)
+    # value pool: every integer constant the public headers name (enumerators, literal-valued macros) - "meaningful"
+    # values for the prior contents of other fields (a message type of another format, a format code, a subtype)
+    pool = constant_pool(inc, out)
+    c.append('const uint64_t g_pool[] = {%s};\nconst int g_npool = %d;' % (', '.join('%dull' % v for v in pool) or '0', len(pool)))
     with open(os.path.join(out, 'rows_gen.c'), 'w') as f:
         f.write('\n'.join(c) + '\n')
 
